@@ -52,6 +52,8 @@ def _s2(day):
         raise H.HarnessError("S2 setup failed " + r.err[-300:])
     (zd / "a.zo").write_text("# A #ta\n\n- 240101#A1 will be edited v1\n- 240101#A2 untouched\no brand new todo\n")
     (zd / "c.zo").write_text("# C\n\n- new page note\n")
+    (zd / "proj" / "deep").mkdir(parents=True)
+    (zd / "proj" / "deep" / "d.zo").write_text("# D\n\n- 240104#D1 has zid\n- new note on a page in a sub-directory\n")
     return zd, day + dt.timedelta(days=1), ["db", "reindex"]
 
 
@@ -367,7 +369,7 @@ def run(ctx: F.Ctx):
     meta = {
         "rule": (
             "5 scenarios (db create with three ZID-less notes on two pages; db reindex a day later "
-            "with an edited note, a new note, a new page and an untouched page; db reindex with two "
+            "with an edited note, a new note, a new page, a new page in a sub-directory and an untouched page; db reindex with two "
             "changed pages sharing a tag whose other holder dropped it; db create -f with a broken "
             "page; db reindex after changes that need no write-back: a new page whose notes carry "
             "ZIDs, a deleted page, a header-only edit). Effects intercepted in program order: Path.write_text, Path.open(w), touch, "
